@@ -351,7 +351,7 @@ func joinAcceptRoundTrip(c *core.Ctx, r *core.RNG) {
 
 func runC01(c *core.Ctx) {
 	// 1. random data frames
-	n := c.N(200000, 3000000)
+	n := c.N(200000, 40000000)
 	for i := int64(0); i < n; i++ {
 		if !c.Mine("data-random", i) {
 			continue
@@ -419,7 +419,7 @@ func runC01(c *core.Ctx) {
 	c.Exhaustive("data-grid")
 
 	// 3. fixed-layout frames
-	m := c.N(30000, 500000)
+	m := c.N(30000, 6000000)
 	for i := int64(0); i < m; i++ {
 		if !c.Mine("join", i) {
 			continue
